@@ -326,6 +326,10 @@ def check_C15(tier, seed):
         d = []
         if "panic" in pair or not pair.get("ok"):
             d.append(("pair api", "a result", pair))
+        elif pair.get("forms_agree") is False or (isinstance(tree, dict) and tree.get("forms_agree") is False):
+            bad = pair if pair.get("forms_agree") is False else tree
+            d.append(("the Pair / tree API through the Position and Span forms of the same input", "what the &str form gives",
+                      {"pos_form": bad.get("pos_form"), "span_form": bad.get("span_form")}))
         else:
             if pair["token"] != exp_pre:
                 d.append(("as_token (pre-order flattening)", exp_pre, pair["token"]))
@@ -462,6 +466,8 @@ def check_C11(tier, seed):
                     return [("%s.%s: the parse panicked" % (form, k), "Ok or Err", o)]
         return []      # verdicts are C01's business; here only that the call returns
     rows = props.run_generic(ctx, "c11", allg, "s", cmp_term, with_pest=False)
+    # ... also when the input is a Position or a Span that ends inside a longer string (every kind of matcher next to the cut)
+    props.run_generic(ctx, "c11f", props.forms_grams(tier), "spn", cmp_term, with_pest=False, famname="formsf")
     ctx.notes["wellfounded_grammars_run"] = len(allg)
     # "emits code that compiles" holds under every option: recursion through every operator / rule kind with boxing reduced, both AST paths
     recg = []
@@ -669,6 +675,9 @@ def check_C16(tier, seed):
         for g in grams:
             g["id"] = g["id"] + vtag
             g["opts"] = opts
+            # the rule is applied to a Span inside a longer string: text behind the end of the span is not part of the input
+            g["ctxs"] = [[[], []], [[], cps("a")], [cps("b"), cps("ab")]] if vtag == "o" else [[[], []], [cps("a"), cps("-a")]]
+            g["maxlen"] = min(g.get("maxlen", 3), 3)
         path, corpus = peg.make_corpus(grams, "c16" + vtag)
         gobs = run_text(genbin, [{"idx": i, "text": g["text"], "opts": opts, "want": "getters"} for i, g in enumerate(grams)], procs=4)
         for i, (g, c) in enumerate(zip(grams, corpus)):
@@ -702,9 +711,10 @@ def check_C16(tier, seed):
                 extra += """
 pub fn custom_%s(job: &hcommon::Job) -> serde_json::Value {
     use pest_typed::ParsableTypedNode;
-    match t::rules::r#%s::try_parse_partial(job.full.as_str()) {
+    match t::rules::r#%s::try_parse_partial(pest_typed::Span::new(job.full.as_str(), job.lo, job.hi).unwrap()) {
         Ok((_, node)) => {
             let mut m = serde_json::Map::new();
+            m.insert("__lo".into(), serde_json::json!(job.lo));
 %s            let _ = &node;
             serde_json::Value::Object(m)
         }
@@ -757,6 +767,8 @@ pub fn custom_%s(job: &hcommon::Job) -> serde_json::Value {
                     continue
                 if "spans" in o:
                     exp = [[c[1], c[2]] for c in direct]
+                    lo0 = x.get("__lo", 0)
+                    o = dict(o, spans=[[a - lo0, b - lo0] for a, b in o["spans"]])
                     if o["spans"] != exp:
                         ctx.violation("getter %s.%s() on %r (%s): expected nodes at %s, got %s  shape %s" % (job["rule"], n, uncps(job["inp"]), "optimizer off" if ast == "src" else "default", exp, o["spans"], o["shape"]),
                                       props.replay_of(rec, job, obs, gram, "getter %s" % n, exp, o))
@@ -872,7 +884,16 @@ pub fn history(job: &hcommon::Job) -> serde_json::Value {
     for (k, call) in job.raw["hist"].as_array().unwrap().iter().enumerate() {
         let rule = call[0].as_str().unwrap();
         let (lo, hi) = (call[1].as_u64().unwrap() as usize, call[2].as_u64().unwrap() as usize);
-        let span = pest_typed::Span::new(full, lo, hi).unwrap();
+        // the same sub-range is built in different ways, depending on the place in the history: Span::new, Span::get of the whole
+        // input, Span::get of a parent span that ends before the end of the input
+        let span = match k %% 3 {
+            0 => pest_typed::Span::new(full, lo, hi).unwrap(),
+            1 => pest_typed::Span::new_full(full).get(lo..hi).unwrap(),
+            _ => {
+                let pe = if hi < full.len() && full.is_char_boundary(hi + 1) { hi + 1 } else { hi };
+                pest_typed::Span::new(full, 0, pe).unwrap().get(lo..hi).unwrap()
+            }
+        };
         // the same arguments reach the parser through different input forms, depending on the place in the history
         let form = if hi == full.len() && k %% 2 == 1 { if lo == 0 { 1 } else { 2 } } else { 0 };
         macro_rules! go {
